@@ -116,18 +116,31 @@ Qed.
 
 (* ---------- an explicit id that is in use is refused with ValueError, nothing else can happen ---------- *)
 Theorem dup_id_refused : forall c prox z name parent frac group conv ty reord opt,
-  z <> 0%Z -> In z (ids c) ->
+  In z (ids c) ->
   exists e, add_segment true c prox (Some z) name parent frac group conv ty reord opt = BErr e /\
             (e = BDupId \/ e = BNoParent \/ e = BValidation \/ e = BBadInput).
 Proof.
-  intros c prox z name parent frac group conv ty reord opt Hz Hin. unfold add_segment.
+  intros c prox z name parent frac group conv ty reord opt Hin. unfold add_segment.
   destruct (Nat.ltb 0 (length (segs c)) && match parent with None => true | Some _ => false end);
     [exists BNoParent; split; [reflexivity | auto]|].
   destruct (parent_of c parent frac) as [sp|e] eqn:Hp.
-  - rewrite (explicit_id_in_use_refused c z Hz Hin). exists BDupId. split; [reflexivity | auto].
+  - rewrite (explicit_id_in_use_refused c z Hin). exists BDupId. split; [reflexivity | auto].
   - exists e. split; [reflexivity|]. unfold parent_of in Hp. destruct parent as [k|]; [|discriminate].
     destruct (nth_error (segs c) k); [|inversion Hp; auto].
     destruct (Z.ltb frac 0 || Z.ltb 4 frac); [inversion Hp; auto | discriminate].
+Qed.
+
+(* an explicit id that is free is the id the segment gets - 0 included, whatever else is in the cell *)
+Theorem free_id_honoured : forall c prox z name parent frac group conv ty reord opt c',
+  add_segment true c prox (Some z) name parent frac group conv ty reord opt = BRet c' ->
+  exists s, segs c' = (segs c ++ [s])%list /\ sid s = z.
+Proof.
+  intros c prox z name parent frac group conv ty reord opt c' H.
+  destruct (add_segment_shape _ _ _ _ _ _ _ _ _ _ _ _ H) as [i [sp [nm [tag [Hf [_ [_ [Hi Hr]]]]]]]].
+  assert (E : i = z).
+  { unfold choose_id in Hi. destruct (memZ z (ids c)); [discriminate | inversion Hi; reflexivity]. }
+  exists (mkSeg i sp prox nm tag (opt_group group)). split; [|exact E].
+  destruct opt; [destruct (optimise_shape _ _ Hr) as [E2 _]; exact E2 | simpl in Hr; rewrite Hr; reflexivity].
 Qed.
 
 (* the id given to a new segment is never one already in the cell *)
@@ -145,6 +158,17 @@ Definition seg_op (seg_id : option Z) (parent : option nat) (group : option stri
   AddSegment true seg_id None parent 4 group true (Some ty) true opt.
 
 (* shipped methods: the ValueError for an id in use is swallowed -> two segments with id 5 *)
+(* shipped methods: an explicit id 0 counts as "not given" - asked for again it is not refused, the segment is
+   silently stored under the next free id *)
+Definition zero_ops : list op := [seg_op (Some 0%Z) None None "soma" true; seg_op (Some 0%Z) (Some 0) None "dendrite" true].
+Theorem zero_v0_refuted : exists c, run false zero_ops init_factory = BRet c /\ ids c = [0; 1]%Z.
+Proof. eexists. split; vm_compute; reflexivity. Qed.
+Example zero_fixed : run true zero_ops init_factory = BErr BDupId.
+Proof. vm_compute. reflexivity. Qed.
+Example zero_free_fixed : exists c, run true [seg_op (Some 3%Z) None None "soma" true; seg_op (Some 0%Z) (Some 0) None "dendrite" true;
+                                              seg_op None (Some 1) None "dendrite" true] init_factory = BRet c /\ ids c = [3; 0; 2]%Z.
+Proof. eexists. split; vm_compute; reflexivity. Qed.
+
 Definition dup_ops : list op := [seg_op (Some 5%Z) None None "soma" true; seg_op (Some 5%Z) (Some 0) None "dendrite" true].
 Theorem dup_v0_refuted : exists c, run false dup_ops init_factory = BRet c /\ ids c = [5; 5]%Z.
 Proof. eexists. split; vm_compute; reflexivity. Qed.
